@@ -1,16 +1,23 @@
 """C03 - Tolerated-failure threshold stops new sequences and decides outcomes.
 
-Theorem side (coq/c03): MonC03.mon_tol is the formal statement of the property over an observed trace (a fold with
-explicit small state; clauses [1]-[13] in the header of coq/c03/MonC03.v); props/C03.v proves
-    c03_tolerance : forall sh tr s, shape_wf sh = true -> run sh init tr = Some s -> mon_tol (sh, tr) = true
-for every shape, every trace and every interleaving the observable engine automaton (coq/engine) accepts, by a product
-invariant, and re-states the mechanism theorems of coq/limiter (the detailed model of ExecuteSequences with its
-unobservable steps: limiter_failed_bound, limiter_conc1_stops, limiter_verdict, block_verdict_schedule_independent,
-limiter_precounted_exceeded_no_start), which mech.check_mechanisms re-checks and ties to the source on every run.
+Theorem side (coq/c03, depends on coq/engine and coq/limiter):
+  MonC03.mon_tol is the formal statement of the property over an observed trace (a fold with explicit small state, written
+  without reference to the automaton; clauses [1]-[13] in the header of coq/c03/MonC03.v).  props/C03.v proves
+    c03_tolerance                      forall sh tr s, shape_wf sh = true -> run sh init tr = Some s -> mon_tol (sh, tr) = true
+    c03_tolerance_any_shape            the same without the premise
+    c03_release                        at EvRelease fin: fin shows the block's last written status; plan Failed after a Failed block
+    c03_bound_and_verdict              what acceptance means in arithmetic: f <= tol + conc; Failed => cause and I = 0;
+                                       Completed => no cause and I = 0
+    c03_block_verdict_schedule_independent   automaton level: with an action-determined oracle and no failing check the block's
+                                       deciding write is Failed iff #would-fail > tol, for every schedule
+  for every shape, trace and interleaving the observable engine automaton accepts (product invariant, no bounds), and
+  re-states the mechanism theorems of coq/limiter (detailed model of ExecuteSequences with its unobservable steps:
+  launch guard, failed bound + attained, conc = 1 stops, verdict, schedule independence, pre-counted failures), which
+  mech.check_mechanisms re-checks and ties to the statement order of the source on every run.
 
 Correspondence: every run of the real engine (profile `tol`: bounded-exhaustive tol -1..2 x conc 1..3 x <= 4 sequences x
-failing subsets = 360 plans, the director permuting the completion order; plus `mixed`) must be accepted by the
-automaton AND satisfy mon_tol; a false monitor is a concrete violation with that trace as the replay.
+failing subsets = 360 plans, the director permuting the completion order; plus `mixed`; plus 2-6 plans on one Workstream)
+must be accepted by the automaton AND satisfy mon_tol; a false monitor is a concrete violation with that trace as replay.
 """
 from props import engine_common as ec
 from props import mech
